@@ -108,7 +108,15 @@ fn main() {
 
     let mut ctx = Ctx::new(&id, tier, seed);
     ctx.replay_tier(&|sub, case| (prop.replay)(sub, case));
-    (prop.run)(&mut ctx);
+    // a panic that escapes a property's own guards: located in the harness sources it is a harness
+    // defect (exit 2); located in calamine it is a call that did not return, reported as a violation
+    if let Err(p) = engine::guard(|| (prop.run)(&mut ctx)) {
+        if p.contains("@ src/") {
+            eprintln!("HARNESS-SELF-CHECK: the harness itself panicked: {p}");
+            std::process::exit(2);
+        }
+        ctx.report_violation("panic", &serde_json::json!({"panic": p}), &format!("calamine panicked in a call the check makes outside its generated cases: {p}"));
+    }
     let code = ctx.finish(prop.rule);
     std::process::exit(code)
 }
